@@ -37,7 +37,7 @@ def evidence_extra():
 
 def ev_row(case, rec):
     res, idx = tmcommon.forward_row(case, rec)
-    ell, prj = ELLS[case['ell']], PRJS[case['prj']]
+    ell, prj = cfg.ell_obj(case['ell']), PRJS[case['prj']]
     a, invf = ELL_AF[case['ell']]
     fe, fn, k0, zw, icm = PRJ_PAR[case['prj']]
     lat = case['lat']
